@@ -12,6 +12,9 @@ CLAIMED = {
     'C07': ('4 C07', 'TLC model checking of the documented comparison mechanism against the preorder axioms (MC_Order) + TLC-enumerated lists/tables replayed into sort / dictable.sort + the full cmp matrix and random sorts recorded from the code, validated by the TLA+ trace specification Trace_Order (axioms over all pairs and triples of the observed matrix)',
             'Axioms (total, antisymmetric, transitive, pinned entries) checked by TLC on every pair/triple of a ~95-value concrete universe as observed from the real cmp; sorting results judged by TLC against the real cmp (permutation, non-decreasing, lexicographic by key columns, stable, idempotent, explicit value orders recomputed exactly).',
             'Trusted: TLC, harness/enc.py. The order of strings is given extensionally on a fixed universe; cross-type ranking is deliberately not pinned.'),
+    'C02': ('4 C02', 'TLC model checking of the sort-merge mechanism (MergeJoin: refinement of the law-level join/anti-join and termination under fairness) and of the law level (MC_Join) + TLC-enumerated key tables decorated and replayed through join, *, xor, / under a CPU-time watchdog, every call validated by the TLA+ trace specification Trace_Join (bag equality with the relational join)',
+            'The two-cursor merge is proved (within 2 rows a side over 8 key values incl. two NaN identities) to terminate and to pair exactly the key-equal rows; every real call (thousands of enumerated and random operand pairs x spellings x modes) is judged by TLC against the law-level definition as a multiset, operands compared before/after, non-termination detected by watchdog.',
+            'Trusted: TLC, harness/enc.py, the 3 s CPU watchdog as a termination oracle. xor without key columns returns x (named deviation XorNoKey).'),
 }
 PENDING_REASON = 'check not built yet in this round (planned, see DESIGN.md section 4); not claimed until its specification and conformance harness exist'
 
